@@ -560,7 +560,8 @@ def compare(run, level, name, ops, trace, per_impl, optotal, marks, fatal_ok, no
             tot, ex, ms = optotal[k]
             t = trace[k]
             if ex != (t["exited"] is not None):
-                out.append(("exit", "after op %d %s: model exited=%s, implementation exited=%s" % (k, op, t["exited"], ex)))
+                out.append(("exit", "after op %d %s: model exited=%s, implementation exited=%s" % (k, op, t["exited"], ex),
+                            {"k": k, "model": t["exited"], "impl": ex}))
             elif level == "wire" and not ex and tot != t["total"]:
                 out.append(("total", "after op %d %s: model total_clients=%d, implementation %d" % (k, op, t["total"], tot)))
             if ex and t["exited"] is not None and sig_ms is not None and t["exited"] in ("ByZero", "ByTimer"):
@@ -1070,6 +1071,21 @@ def wedge_attempt(mockd, i, flood_tasks=6, flood_ms=700):
         B.finish()
 
 
+def known_wedge_case(ops, dis, loop_silent):
+    """True iff the only disagreement is 'the process did not exit where the eager schedule of the model exits by
+    the zero count', the main loop was observed to serve nobody any more, and the ADVERSARIAL schedule of the very
+    same script (Model.v settle_adv: clients react to the broadcast before the SIGINT arm queues its 0, drain arm
+    before exit arm) wedges in the model at that operation: the class of the known exit-channel deadlock."""
+    ex = [d for d in dis if d[0] == "exit"]
+    if len(ex) != 1 or any(d[0] not in ("exit", "time") for d in dis) or not loop_silent:
+        return False
+    info = ex[0][2]
+    if info["model"] != "ByZero" or info["impl"]:
+        return False
+    (adv,) = eval_scripts([("adv", ops)], adv=True)
+    return adv is not None and info["k"] < len(adv) and adv[info["k"]]["wedged"] and adv[info["k"]]["exited"] is None
+
+
 # ----------------------------------------------------------------------------- check
 def eval_scripts(named, adv=False):
     exprs = [model_expr(ops, adv=adv) for _, ops in named]
@@ -1123,6 +1139,7 @@ def check(run):
 
     extra = {}
     evals = 0
+    wedges_seen = []
     # (a) in-process
     scns = [wire_scenario(ops, t) for _, ops, t in cases]
     results = W.run_scenarios(bins["wire"], [s for s, _ in scns], workers=12, timeout=60)
@@ -1137,6 +1154,9 @@ def check(run):
             dis.append(("monitor", p))
         evals += 1
         run.cov["traces_validated_against_impl"] += 1
+        if dis and known_wedge_case(ops, dis, per.get("#zz", [""])[0].startswith("noreply")):
+            wedges_seen.append(("in-process", n, ops))
+            continue
         if dis:
             wire_dis += 1
             kindv = "counterexample" if any(d[0] == "monitor" for d in dis) else "tie-broken"
@@ -1174,6 +1194,9 @@ def check(run):
             dis.append(("exit", "the process exited although the model does not"))
         evals += 1
         run.cov["traces_validated_against_impl"] += 1
+        if dis and known_wedge_case(ops, dis, o.get("noexit_sig") == "admin login not answered"):
+            wedges_seen.append(("binary", n, ops))
+            continue
         if dis:
             bin_dis += 1
             kindv = "counterexample" if any(d[0] == "monitor" for d in dis) else "tie-broken"
@@ -1202,6 +1225,10 @@ def check(run):
         run.cov["wedge_hunt"] = {"attempts": n_hunt, "wedged": len(wedged), "sample": wedged[:1]}
         if wedged:
             run.known_finding("exit channel deadlock reproduced on the binary: SIGINT during a burst of CancelRequests, %d of %d attempts never exited (no exit at shutdown_timeout, SIGTERM ignored) — model schedule wedge_cancel, theorem c17_exit_liveness_refuted" % (len(wedged), n_hunt), key="F-C17-wedge")
+    run.cov["wedges_seen_in_correspondence"] = [{"level": l, "script": n, "ops": o} for l, n, o in wedges_seen[:5]]
+    if wedges_seen:
+        run.known_finding("exit-channel deadlock hit %d time(s) during the correspondence runs (e.g. %s script %s %s): the process neither exits nor accepts anybody; the adversarial schedule of the same script wedges in the model" %
+                          (len(wedges_seen), wedges_seen[0][0], wedges_seen[0][1], json.dumps(wedges_seen[0][2])), key="F-C17-wedge-seen")
     run.known_finding("main.rs: exit_tx (capacity 1) is written by the loop that reads it; a second total_clients == 0 observation while the first exit message is unread blocks the main loop for ever (schedules wedge_inflight / wedge_cancel; theorems c17_wedge_origin, c17_wedge_is_forever, c17_exit_liveness_refuted)", key="F-C17-wedge-model")
 
     run.cov["evaluations"] = evals
